@@ -90,8 +90,12 @@ def scripted_classify(d):
             r = script.pop(0) if script else None
             return None if r is None else Region(r["basis"], r["conn"], r["is_2d"], len(script))
     msgs = []
-    with patched(CM, PeriodicFinder=Finder), patched(CM.matid.geometry, get_dimensionality=fake_dim,
-                                                     get_distances=lambda s, radii="covalent": Distances(np.zeros((n, n, 3)), np.zeros((n, n, 3)), Dm.copy(), Dr.copy()),
+    dist_pos = []
+
+    def fake_dist(s, radii="covalent"):
+        dist_pos.append(s.get_positions().copy())
+        return Distances(np.zeros((n, n, 3)), np.zeros((n, n, 3)), Dm.copy(), Dr.copy())
+    with patched(CM, PeriodicFinder=Finder), patched(CM.matid.geometry, get_dimensionality=fake_dim, get_distances=fake_dist,
                                                      get_center_of_mass=lambda s: np.array(d["cm"], float)):
         try:
             clf = CM.Classifier(min_coverage=d["min_coverage"], cluster_threshold=d["cluster_threshold"])
@@ -111,6 +115,11 @@ def scripted_classify(d):
             msgs.append(f"dimensionality evaluated with threshold {thr}, cluster_threshold is {d['cluster_threshold']}")
         if M is None or not np.allclose(M, Dr):
             msgs.append("dimensionality evaluated on a matrix that is not the radii-corrected minimum-image matrix of the structure")
+        # get_dimensionality's precondition: the matrix handed over is that of the structure handed over (the wrapped copy)
+        wrapped = at.copy()
+        wrapped.wrap()
+        if not dist_pos or not np.allclose(dist_pos[0], pos) or not np.allclose(pos, wrapped.get_positions()):
+            msgs.append("the distances were computed on another structure than the wrapped copy whose dimensionality is evaluated")
     return msgs
 
 
